@@ -1,6 +1,6 @@
 """C07 — dependency inversion: Impl<T> reaches the selected implementation block."""
 from ..common import Report
-from ..corpus import load, load_repo_tests
+from ..corpus import load, load_kf, load_repo_tests
 from ..crossgen import load_cross
 from ..wrules import check_trait_forwarding, check_implblock, check_inversion_traits
 
@@ -22,6 +22,9 @@ def run(tier):
             elif exp.mode == "impl":
                 check_implblock(rep, ld.crate, exp, cfg)
                 programs += 1
+    # generic entraited traits with a delegation target (known finding, witness/kf)
+    load_kf(rep, {"c07_generic_target": "a generic entraited trait with a static delegation target expands to code naming `TraitImpl<T>` without the trait's own generic arguments",
+                  "c07_generic_target_ref": "a generic entraited trait with `delegate_by = ref` and a delegation target expands to code naming `dyn TraitImpl<T>` without the trait's own generic arguments"})
     rep.floor("generated_methods_checked", 30)
     rep.coverage.update({"programs": programs,
                          "disagreements_checked": rep.counters.get("generated_methods_checked", 0),
